@@ -1,9 +1,251 @@
-/- C09 driver: not written yet -/
+/-
+  C09 driver: replays what the real Voxels / View::split / Heightmap::render did
+  (harness/heightmap.cpp output) through the model of LibfiveModel/Heightmap.lean.
+
+  Compared (verdict lines `ok …` / `MISMATCH …` / `skip …`):
+    vox      voxSize of the single-precision product res·(upper−lower)  vs. real pts[a].size()
+    pts      voxel centres strictly increasing (hypothesis `Mono zr` of render_eq_bruteforce)
+    root     voxels()/empty()/unit() of the root view; pts pointer offset = corner
+    split    View.split (mask A) vs. real View::split<A> (corner, size; pts offset = corner)
+    enum     enumerate(root) visits sx·sy·sz voxels
+    brute    the harness's column scan = scanCol on the exported classifier
+    regions  regions w root vs. the real region list
+    render   model `render` fed with the real interval answers (as `recurse` reads them) and the real
+             per-voxel signs vs. the real depth image, pixel for pixel
+  Hypothesis reports (not verdicts): `hyp-unsound …` for every interval answer that is not sound for
+  the exported classifier (theorem hypothesis `Sound`), with its maybe-NaN flag; `hyp-pushdiff …` for
+  every leaf view whose voxel signs through the pushed tape differ from the base tape (the model has
+  one classifier: C05's obligation) — the model is then run with the signs the renderer really saw.
+-/
 import Driver.Parse
+import LibfiveModel.Heightmap
+import Std.Data.HashMap
+open Libfive Libfive.Heightmap
 
 namespace Driver.C09
 
-def run (_args : List String) (lines : Array String) : Array String :=
-  #[s!"MISMATCH driver-not-implemented {lines.size}"]
+def hex! (s : String) : Nat := (F32.parseHex s).getD 0
+
+/-- order-preserving key of a non-NaN float: sign-magnitude → Int (±0 ↦ 0) -/
+def fkey (bits : Nat) : Int :=
+  if bits ≥ 0x80000000 then -((bits - 0x80000000 : Nat) : Int) else (bits : Int)
+
+def isNaNBits (bits : Nat) : Bool :=
+  let m := bits % 0x80000000
+  m > 0x7f800000
+
+/-- a float as a non-negative rational num/den (negative and zero ↦ 0/1); none for inf/NaN -/
+def fRat (bits : Nat) : Option (Nat × Nat) :=
+  let neg := bits ≥ 0x80000000
+  let b := bits % 0x80000000
+  let e := b / 0x800000
+  let m := b % 0x800000
+  if e == 255 then none
+  else if neg then some (0, 1)
+  else
+    let M := if e == 0 then m else m + 0x800000
+    let x := (if e == 0 then 1 else e)      -- value = M · 2^(x − 150)
+    if x ≥ 150 then some (M * 2 ^ (x - 150), 1) else some (M, 2 ^ (150 - x))
+
+structure RView where
+  v : View
+  px : Nat
+  py : Nat
+  pz : Nat
+
+def parseView (ws : List String) : Option (RView × List String) :=
+  match ws with
+  | cx :: cy :: cz :: sx :: sy :: sz :: px :: py :: pz :: rest =>
+    some (⟨⟨nat! cx, nat! cy, nat! cz, nat! sx, nat! sy, nat! sz⟩, nat! px, nat! py, nat! pz⟩, rest)
+  | _ => none
+
+def RView.ptsOk (r : RView) : Bool := r.px == r.v.cx && r.py == r.v.cy && r.pz == r.v.cz
+
+def showView (v : View) : String := s!"{v.cx} {v.cy} {v.cz} {v.sx} {v.sy} {v.sz}"
+
+structure St where
+  case : String := ""
+  bigN : Nat := 0               -- ArrayEvaluator::N as reported by the library
+  root : View := ⟨0, 0, 0, 0, 0, 0⟩
+  zkeys : Array Int := #[]
+  zmono : Bool := true
+  fbits : ByteArray := ByteArray.empty
+  fover : ByteArray := ByteArray.empty   -- classification as seen through the pushed tapes (this run)
+  w : Nat := 0
+  regs : Array View := #[]
+  tbl : Std.HashMap View IState := {}
+  bad : Bool := false          -- NaN / inf somewhere: skip the render comparison
+
+def mkF (sy sz : Nat) (bits : ByteArray) : Nat → Nat → Nat → Bool :=
+  fun i j k => (bits.get! ((i * sy + j) * sz + k)) == 49
+
+def St.f (st : St) : Nat → Nat → Nat → Bool := mkF st.root.sy st.root.sz st.fbits
+
+/-- overwrite the classification of the voxels of view `v` with `bits` (index (di·sy'+dj)·sz'+dk) -/
+def overlay (root v : View) (bits : ByteArray) (acc : ByteArray) : ByteArray := Id.run do
+  let mut a := acc
+  for di in [0:v.sx] do
+    for dj in [0:v.sy] do
+      for dk in [0:v.sz] do
+        let g := ((v.cx + di) * root.sy + (v.cy + dj)) * root.sz + (v.cz + dk)
+        if g < a.size then
+          a := a.set! g (bits.get! ((di * v.sy + dj) * v.sz + dk))
+  return a
+
+def strictlyIncreasing (ks : Array Int) : Bool :=
+  (List.range (ks.size - 1)).all fun i => ks.getD i 0 < ks.getD (i + 1) 0
+
+def handle (st : St) (line : String) : St × List String :=
+  let ws := words line
+  match ws with
+  | "case" :: k :: _ => ({ case := k }, [])
+  | "N" :: n :: _ =>
+    ({ st with bigN := nat! n }, [if nat! n ≥ 1 then s!"ok batch-size case {st.case} N {n}"
+                                  else s!"MISMATCH batch-size case {st.case} N {n} (theorems need N ≥ 1)"])
+  | "vox" :: sx :: sy :: sz :: rest =>
+    -- rest = lower:3 upper:3 "req" 9 "prod" 3
+    let prod := (rest.drop 17).take 3
+    let sizes := [nat! sx, nat! sy, nat! sz]
+    let outs := (List.range 3).map fun a =>
+      let p := hex! (prod.getD a "")
+      match fRat p with
+      | none => s!"skip vox case {st.case} axis {a} non-finite product"
+      | some (n, d) =>
+        let ms := voxSize n d
+        if ms == sizes.getD a 0 then s!"ok vox case {st.case} axis {a}"
+        else s!"MISMATCH vox case {st.case} axis {a} model {ms} real {sizes.getD a 0} prod {prod.getD a ""}"
+    ({ st with root := ⟨0, 0, 0, nat! sx, nat! sy, nat! sz⟩ }, outs)
+  | "pts" :: a :: n :: rest =>
+    let bits := rest.map hex!
+    let nan := bits.any isNaNBits
+    let ks := (bits.map fkey).toArray
+    let inc := strictlyIncreasing ks
+    let cnt := ks.size == nat! n && ks.size == (if a == "0" then st.root.sx else if a == "1" then st.root.sy else st.root.sz)
+    let o := if nan then s!"skip pts case {st.case} axis {a} NaN position"
+      else if inc && cnt then s!"ok pts case {st.case} axis {a}"
+      else s!"MISMATCH pts case {st.case} axis {a} increasing {inc} count {cnt}"
+    let st := if a == "2" then { st with zkeys := ks, zmono := inc && !nan } else st
+    ({ st with bad := st.bad || nan || !inc }, [o])
+  | "rootview" :: rest =>
+    match parseView rest with
+    | some (r, vox :: emp :: unit :: _) =>
+      let m := st.root
+      let good := r.v == m && r.ptsOk && nat! vox == m.voxels && (emp == "1") == m.empty && (unit == "1") == m.unit
+      let en := (enumerate (m.sx + m.sy + m.sz) m).length
+      let o2 := if m.voxels > 40000 then s!"skip enum case {st.case} large"
+        else if en == m.voxels then s!"ok enum case {st.case}"
+        else s!"MISMATCH enum case {st.case} model {en} voxels {m.voxels}"
+      (st, [if good then s!"ok root case {st.case}" else s!"MISMATCH root case {st.case} {line}", o2])
+    | _ => (st, [s!"MISMATCH parse case {st.case} rootview"])
+  | "split" :: a :: rest =>
+    match parseView rest with
+    | some (p, rest) =>
+      match parseView rest with
+      | some (x, rest) =>
+        match parseView rest with
+        | some (y, _) =>
+          let A := nat! a
+          let ms := p.v.split (A % 2 == 1) ((A / 2) % 2 == 1) ((A / 4) % 2 == 1)
+          let good := ms.1 == x.v && ms.2 == y.v && p.ptsOk && x.ptsOk && y.ptsOk
+          (st, [if good then s!"ok split case {st.case} A {A} {showView p.v}"
+                else s!"MISMATCH split case {st.case} A {A} parent {showView p.v} model {showView ms.1} | {showView ms.2} real {showView x.v} | {showView y.v} ptsok {p.ptsOk} {x.ptsOk} {y.ptsOk}"])
+        | none => (st, [s!"MISMATCH parse case {st.case} split"])
+      | none => (st, [s!"MISMATCH parse case {st.case} split"])
+    | none => (st, [s!"MISMATCH parse case {st.case} split"])
+  | "f" :: bits :: _ =>
+    let b := bits.toUTF8
+    if b.size == st.root.voxels then ({ st with fbits := b }, [])
+    else ({ st with fbits := b, bad := true }, [s!"MISMATCH parse case {st.case} f length {b.size} voxels {st.root.voxels}"])
+  | "brute" :: rest =>
+    let f := st.f
+    let r := st.root
+    let vals := rest.toArray
+    let badIdx := (List.range (r.sx * r.sy)).find? fun idx =>
+      let i := idx / r.sy
+      let j := idx % r.sy
+      let m : Int := match scanCol f i j 0 r.sz with
+        | some k => (k : Int)
+        | none => -1
+      (vals.getD idx "").toInt? != some m
+    match badIdx with
+    | none => (st, [s!"ok brute case {st.case}"])
+    | some idx => (st, [s!"MISMATCH brute case {st.case} column {idx / r.sy} {idx % r.sy}"])
+  | "run" :: w :: _ => ({ st with w := nat! w, regs := #[], tbl := {}, fover := st.fbits }, [])
+  | "P" :: _ :: rest =>
+    match parseView rest with
+    | some (r, nd :: nn :: taint :: bits :: _) =>
+      let b := bits.toUTF8
+      if b.size == r.v.voxels then
+        ({ st with fover := overlay st.root r.v b st.fover },
+         [s!"hyp-pushdiff case {st.case} w {st.w} view {showView r.v} voxels-differ {nd} nan-one-side {nn} taint {taint}"])
+      else (st, [s!"MISMATCH parse case {st.case} P length"])
+    | _ => (st, [s!"MISMATCH parse case {st.case} P"])
+  | "region" :: _ :: _ :: rest =>
+    match parseView rest with
+    | some (r, _) =>
+      let o := if r.ptsOk then [] else [s!"MISMATCH region-pts case {st.case} w {st.w} {showView r.v}"]
+      ({ st with regs := st.regs.push r.v }, o)
+    | none => (st, [s!"MISMATCH parse case {st.case} region"])
+  | "I" :: _ :: rest =>
+    match parseView rest with
+    | some (r, _lo :: _hi :: nan :: filled :: empty :: rest2) =>
+      let bnan := rest2.getD 3 "?"
+      let taint := rest2.getD 5 "?"
+      -- `if (out.isFilled()) … else if (!out.isEmpty()) …`   (heightmap.cpp as it stands: the maybe-NaN flag is
+      -- NOT consulted.  If proposed_fixes/C09-isfilled-maybe-nan.patch is applied, this reading must become
+      -- `filled == "1" && nan == "0"`; until then a fixed library shows up here as `MISMATCH render`.)
+      let s := if filled == "1" then IState.filled else if empty == "1" then IState.empty else IState.ambiguous
+      -- hypothesis `Sound`: filled ⇒ every voxel centre inside, empty ⇒ none
+      let f := st.f
+      let v := r.v
+      let all (want : Bool) : Bool :=
+        (List.range v.sx).all fun di => (List.range v.sy).all fun dj => (List.range v.sz).all fun dk =>
+          f (v.cx + di) (v.cy + dj) (v.cz + dk) == want
+      let sound := match s with
+        | .filled => all true
+        | .empty => all false
+        | .ambiguous => true
+      let o := if sound then [] else
+        [s!"hyp-unsound case {st.case} w {st.w} view {showView v} state {if filled == "1" then "filled" else "empty"} maybe-nan {nan} base-maybe-nan {bnan} taint {taint}"]
+      let o := if r.ptsOk then o else s!"MISMATCH view-pts case {st.case} w {st.w} {showView v}" :: o
+      ({ st with tbl := st.tbl.insert v s }, o)
+    | _ => (st, [s!"MISMATCH parse case {st.case} I"])
+  | "budget-exhausted" :: _ => ({ st with bad := true }, [s!"skip oracle-budget case {st.case} w {st.w}"])
+  | "depth" :: w :: rest =>
+    let tag := s!"case {st.case} w {w}"
+    let W := nat! w
+    let r := st.root
+    let mregs := regions W r
+    let o1 := if mregs.toArray == st.regs then s!"ok regions {tag} n {mregs.length}"
+      else s!"MISMATCH regions {tag} model {mregs.map showView} real {st.regs.toList.map showView}"
+    if st.bad then (st, [o1, s!"skip render {tag} non-finite or non-monotone positions"]) else
+    let bits := rest.map hex!
+    if bits.any isNaNBits then (st, [o1, s!"MISMATCH render {tag} NaN depth"]) else
+    let real := (bits.map fkey).toArray
+    -- the classifier as the renderer saw it: base-tape signs, overridden on the leaves where the
+    -- pushed tape disagreed (reported as hyp-pushdiff; identical to `st.f` when there is none)
+    let f := mkF st.root.sy st.root.sz st.fover
+    let zk := st.zkeys
+    let zr : Nat → Int := fun k => zk.getD k 0
+    let tbl := st.tbl
+    let I : View → IState := fun v => (tbl.get? v).getD IState.ambiguous
+    let ninf := fkey 0xff800000
+    let img := render st.bigN f zr I W r (Img.const r.sx r.sy ninf)
+    let badIdx := (List.range (r.sx * r.sy)).find? fun idx =>
+      img.get (idx / r.sy) (idx % r.sy) != real.getD idx 0
+    let o2 := match badIdx with
+      | none => if real.size == r.sx * r.sy then s!"ok render {tag}" else s!"MISMATCH render {tag} size {real.size}"
+      | some idx => s!"MISMATCH render {tag} pixel {idx / r.sy} {idx % r.sy} model {img.get (idx / r.sy) (idx % r.sy)} real {real.getD idx 0}"
+    (st, [o1, o2])
+  | _ => (st, [])
+
+def run (_args : List String) (lines : Array String) : Array String := Id.run do
+  let mut st : St := {}
+  let mut out : Array String := #[]
+  for l in lines do
+    let (st', o) := handle st l
+    st := st'
+    for x in o do out := out.push x
+  return out
 
 end Driver.C09
